@@ -180,7 +180,9 @@ Definition spec_step (cmds : list logop) (lg : list N) (ak : list (N * nat)) (sn
       (lg, supd (nn n) (fun s => mksnode (s_applied s) (s_hist s) None
                                    (match s_pending s with Some l => s_labels s ++ [l] | None => s_labels s end)) sn, true)
   | ORestore n src k lbl =>
-      (lg, supd (nn n) (fun s => mksnode (nn lbl) (s_hist s) (s_pending s) (s_labels s)) sn, Nat.leb (nn lbl) (length lg))
+      (lg, supd (nn n) (fun s => mksnode (nn lbl) (s_hist s) (s_pending s)
+                                         (if Nat.eqb (nn src) (nn n) then s_labels s else s_labels s ++ [nn lbl])) sn,   (* an install is written into n's store *)
+       Nat.leb (nn lbl) (length lg))
   | ORestart n => (lg, supd (nn n) (fun s => mksnode 0 (s_hist s) None (s_labels s)) sn, true)
   | OAck c n =>                                                                         (* acknowledged: in the sequence and visible on the committer *)
       (lg, sn, acked lg (s_applied (sgetn (nn n) sn)) c)
@@ -236,7 +238,8 @@ Definition is_S19 (cmds : list logop) : bool :=
    FSM.Snapshot that labelled it is "late": Persist wrote the state it found when it ran. The shape: some replica restores a late
    snapshot (install or start-up), or OfflineState is read on a replica whose store holds a late snapshot (the recogniser does not
    know labels, hence not which snapshot of the store is the newest).
-   pend: replicas between FSM.Snapshot and Persist, with "was given something since"; cnt: snapshots persisted per replica;
+   pend: replicas between FSM.Snapshot and Persist, with "was given something since"; cnt: snapshots in the store of each replica
+   (persisted by it or installed on it: (n, k) names the k-th of n's store);
    late: the late snapshots (replica, number). *)
 Definition cnt_of (n : N) (cnt : list (N * N)) : N := match aget n cnt with Some x => x | None => 0 end.
 Definition is_late (late : list (N * N)) (n k : N) : bool := existsb (fun x => (fst x =? n) && (snd x =? k)) late.
@@ -251,7 +254,8 @@ Definition late_step (pend : list (N * bool)) (cnt late : list (N * N)) (e : oev
       let k := cnt_of n cnt in
       (adel n pend, aput n (k + 1) cnt, match aget n pend with Some true => (n, k) :: late | _ => late end, false)
   | ORestart n => (adel n pend, cnt, late, false)
-  | ORestore n src k _ => (touch n pend, cnt, late, is_late late src k)
+  | ORestore n src k _ =>
+      (touch n pend, (if Nat.eqb (nn src) (nn n) then cnt else aput n (cnt_of n cnt + 1) cnt), late, is_late late src k)
   | OOffline n _ => (pend, cnt, late, existsb (fun x => fst x =? n) late)
   | _ => (pend, cnt, late, false)
   end.
